@@ -3,8 +3,8 @@
 # any VIOLATION / non-zero exit here is a false alarm of the machinery.
 patch=$1; shift
 checks=${@:-C01 C02 C03 C04 C05 C06 C07 C08 C09 C10 C11 C12 C13 C14 C15 C16 C17 C18 C19 C20}
-cd /verif
-git -C ${REPO:-/repo} apply --3way $patch 2>/dev/null || git -C ${REPO:-/repo} apply $patch || { echo "patch does not apply"; exit 2; }
+cd "$(dirname "$0")/.."
+git -C ${REPO:-/repo} apply $patch || { echo "patch does not apply"; exit 2; }
 for c in $checks; do
   out=$(./check.sh $c quick 2>&1); rc=$?
   echo "$c rc=$rc $(echo "$out" | grep -E 'verdict=' | head -1 | cut -c1-120)"
